@@ -302,11 +302,14 @@ Proof.
         destruct (conv_value strtod_o (o_kind o) sv) as [xv|].
         * destruct R as (Rn & RV & RS & RR). destruct res as [idx|]; [|congruence].
           assert (OV4 : cb_valid (o_cbs o4) = None) by (rewrite (shape_cbs _ _ RS), (shape_cbs _ _ SH1); exact OV).
-          rewrite (run_validcb_none _ _ OV4).
-          exists (S f3'), w4, (put_opt c3 r o4), o4, L3, ts3, (st_state (st_num p3 (S (s_num p3))) 0). spl; auto; try lia.
+          rewrite (run_validcb_none _ _ OV4). fold (cmt p3 o4).
+          destruct (cmt_props p3 o4) as (CS & CV & CR).
+          rewrite put_put.
+          exists (S f3'), w4, (put_opt c3 r (cmt p3 o4)), (cmt p3 o4), L3, ts3,
+                 (st_state (st_num (st_comment p3 None) (S (s_num (st_comment p3 None)))) 0). spl; auto; try lia.
           -- eapply ceq_trans; [apply ceq_put, C3|]. unfold c2. rewrite put_put. apply ceq_put, C1.
           -- congruence.
-          -- rewrite RV. fold (cur o1). rewrite CUR1. reflexivity.
+          -- rewrite CV, RV. fold (cur o1). rewrite CUR1. reflexivity.
           -- eapply get_put; exact Hg3.
           -- unfold pz; cbn; auto.
         * rewrite R. do 2 eexists. split; [reflexivity|]. eapply wst_oof, WK, W3.
